@@ -545,6 +545,17 @@ class Monitor:
                     book = after["books"].get(n, [])
                     if any(i not in book for i in idx):
                         self.fire(["C16", "C07"], "steal-not-in-book", f"{o}: not all queued on gw{n} ({book})", ops, {})
+        # ---- after an answer the book is the old book without the returned tests, in the old order (C07; C03 relies on it)
+        if op[0] == "unsched" and mode == "worksteal":
+            n = int(op[1])
+            given = [] if op[2] == "-" else [int(x) for x in op[2].split(",")]
+            if n in before["books"] and n in after["books"]:
+                want = [i for i in before["books"][n] if i not in given]
+                got = after["books"][n]
+                # tests sent to the node in the same call are appended behind
+                if got[: len(want)] != want:
+                    self.fire(["C07", "C03"], "book-order-changed-by-steal-answer",
+                              f"after the answer {given} of gw{n} the controller's book is {got}, the worker's queue is {want}", ops, {})
         # ---- crash item (C03)
         if op[0] == "rm":
             n = int(op[1])
